@@ -48,11 +48,36 @@ class SymContinue(Exception):
     pass
 
 
+_ASSIGNED_CACHE: dict = {}
+
+
+def _function_locals(fnode):
+    """names bound by assignment statements / loop targets / with-as / except-as / walrus inside this function (not in nested functions)"""
+    k = id(fnode)
+    if k not in _ASSIGNED_CACHE:
+        out = set()
+        stack = list(ast.iter_child_nodes(fnode))
+        while stack:
+            n = stack.pop()
+            if isinstance(n, (ast.FunctionDef, ast.AsyncFunctionDef, ast.Lambda, ast.ClassDef, ast.ListComp, ast.SetComp, ast.DictComp, ast.GeneratorExp)):
+                continue
+            if isinstance(n, ast.Name) and isinstance(n.ctx, ast.Store):
+                out.add(n.id)
+            elif isinstance(n, ast.ExceptHandler) and n.name:
+                out.add(n.name)
+            stack.extend(ast.iter_child_nodes(n))
+        if isinstance(fnode, (ast.FunctionDef, ast.AsyncFunctionDef)):
+            for a in fnode.args.args + fnode.args.kwonlyargs + fnode.args.posonlyargs:
+                out.discard(a.arg)
+        _ASSIGNED_CACHE[k] = out
+    return _ASSIGNED_CACHE[k]
+
+
 BUILTIN_EXC_BASES = {
     "BaseException": None, "Exception": "BaseException", "ArithmeticError": "Exception",
     "ZeroDivisionError": "ArithmeticError", "LookupError": "Exception", "IndexError": "LookupError",
     "KeyError": "LookupError", "ValueError": "Exception", "TypeError": "Exception",
-    "RuntimeError": "Exception", "NotImplementedError": "RuntimeError", "AttributeError": "Exception",
+    "RuntimeError": "Exception", "NotImplementedError": "RuntimeError", "AttributeError": "Exception", "NameError": "Exception", "UnboundLocalError": "NameError",
     "StopIteration": "Exception", "AssertionError": "Exception", "ImportError": "Exception",
     "DimensionError": "ValueError", "_SpanningDropletSignal": "RuntimeError", "OverflowError": "ArithmeticError",
     "FloatingPointError": "ArithmeticError",
@@ -811,6 +836,13 @@ class Engine:
             if name in f.locals:
                 return f.locals[name]
             f = f.closure
+        # a name that the function assigns somewhere is a LOCAL of that function: reading it on a path that has not bound it raises
+        # UnboundLocalError in CPython (it never falls through to globals / builtins)
+        node = getattr(getattr(fr, "info", None), "node", None)
+        if node is not None and name in _function_locals(node):
+            run.oblige(f"local variable `{name}` is assigned on every path before it is read (UnboundLocalError otherwise)", False, kind="implicit",
+                       assume_after=False)
+            raise SymRaise(SExc("UnboundLocalError", (name,)))
         return self.lookup_global(run, name, fr.modinfo)
 
     def lookup_global(self, run, name, modinfo):
